@@ -814,11 +814,11 @@ static const uint64_t PATTERN = 0x314159265359ull;
 // 0xFF is EOB, 0x00/0x01 are RUNA/RUNB and every other byte is an MTF index.  *Any* byte
 // string without 0xFF is therefore a legal symbol sequence, which lets us spell the 48-bit
 // block-header pattern (or a whole inner block) inside coded data.
-static void write_flat_block(BitWriter &bw, const Bytes &symbols, uint32_t crc, uint64_t *crcpos, uint32_t origptr = 0) {
+static void write_flat_block(BitWriter &bw, const Bytes &symbols, uint32_t crc, uint64_t *crcpos, uint32_t origptr = 0, bool randomised = false) {
   bw.put(PATTERN >> 24, 24); bw.put(PATTERN & 0xFFFFFF, 24);
   if (crcpos) *crcpos = bw.pos;
   bw.put(crc, 32);
-  bw.put(0, 1);            // not randomised
+  bw.put(randomised ? 1 : 0, 1);   // legacy "randomised" flag: the decoder flips bytes of the BWT output on a fixed schedule; any symbol string is legal, the CRC below is computed from the reference decoding
   bw.put(origptr, 24);     // primary index
   bw.put(0xFFFF, 16);
   for (int i = 0; i < 15; i++) bw.put(0xFFFF, 16);
@@ -836,14 +836,14 @@ static void write_flat_block(BitWriter &bw, const Bytes &symbols, uint32_t crc, 
 // One stream holding one block with exactly nsyms non-run symbols (so nsyms decoded bytes before the final
 // run-length decoding and nsyms+1 coded symbols): nsyms = 900000 at level 9 is the largest legal block and needs
 // all 18001 coding groups; nsyms = level*100000+1 overflows the declared size by one byte.
-GenOut gen_full_block(Rng &rng, size_t nsyms, int level, bool max_origptr) {
+GenOut gen_full_block(Rng &rng, size_t nsyms, int level, bool max_origptr, bool randomised) {
   Bytes symbols(nsyms, 0);
   for (size_t i = 0; i < nsyms; i++) symbols[i] = (char)(2 + rng.below(253));
   uint32_t op = max_origptr && nsyms ? (uint32_t)(nsyms - 1) : (uint32_t)rng.below(nsyms ? nsyms : 1);
   uint32_t crc = 0;
   {
     BitWriter t; t.put('B', 8); t.put('Z', 8); t.put('h', 8); t.put('0' + level, 8);
-    write_flat_block(t, symbols, 0, nullptr, op);
+    write_flat_block(t, symbols, 0, nullptr, op, randomised);
     t.put(0x177245385090ull >> 24, 24); t.put(0x177245385090ull & 0xFFFFFF, 24); t.put(0, 32); t.align();
     DecResult d = refdec(t.b);
     if (!d.streams.empty() && !d.streams[0].blocks.empty()) crc = d.streams[0].blocks[0].crc_calc;
@@ -852,7 +852,7 @@ GenOut gen_full_block(Rng &rng, size_t nsyms, int level, bool max_origptr) {
   BitWriter bw; bw.put('B', 8); bw.put('Z', 8); bw.put('h', 8); bw.put('0' + level, 8);
   uint64_t cp;
   go.block_bitpos.push_back(bw.pos);
-  write_flat_block(bw, symbols, crc, &cp, op);
+  write_flat_block(bw, symbols, crc, &cp, op, randomised);
   go.crc_fields.push_back({cp, 0, 0, 0});
   bw.put(0x177245385090ull >> 24, 24); bw.put(0x177245385090ull & 0xFFFFFF, 24);
   go.crc_fields.push_back({bw.pos, 1, 0, -1});
